@@ -64,7 +64,7 @@ def run(prop, components, tier, lean_targets=(), level_text="", assumptions=(), 
             if perr:
                 st["broken"].append(perr)
                 continue
-            drv, err = vlib.build_driver(comp.name, tags, comp.overlay, suffix=comp.suffix)
+            drv, err = vlib.build_driver(comp.name, tags, comp.overlay, suffix=comp.suffix, race=getattr(comp, "race", False))
             if drv is None:
                 st["broken"].append("driver %s (%s) does not build against the current source: %s" % (comp.name, ",".join(tags), err[-800:]))
                 continue
